@@ -56,6 +56,9 @@ class Worker:
         self.rc = None
         self.timed_out = False
         self.wall = 0.0
+        self.crashes = []
+        self.all_records = []
+        self.gave_up = False
 
     def cmd(self, extra=None):
         c = [self.exe, "--seed", str(self.seed), "--shard", "%d/%d" % (self.shard, self.nshards),
@@ -91,6 +94,29 @@ class Worker:
                 self.rc = None
                 self.timed_out = True
         self.wall = time.time() - t
+        return self
+
+    def run_all(self, timeout, max_restarts=5):
+        """run the shard; after a crash resume behind the crashed case (at most max_restarts times)"""
+        self.crashes = []
+        self.all_records = []
+        start = 0
+        for attempt in range(max_restarts + 1):
+            self.run(timeout, ["--from", str(start)] if start else None)
+            if self.timed_out:
+                self.run(timeout, ["--from", str(start)] if start else None)   # once more
+            recs = self.records()
+            self.all_records += recs
+            if self.timed_out:
+                break
+            if self.rc == 0 and any(r.get("t") == "stats" for r in recs):
+                break
+            idx = self.progress()
+            self.crashes.append((idx, self.rc, self.stderr_text()))
+            if idx is None or idx < 0 or attempt == max_restarts:
+                self.gave_up = True
+                break
+            start = idx + 1
         return self
 
     def records(self):
@@ -148,11 +174,20 @@ def classify_crash(text, rc):
     elif "VF-WATCHDOG" in text:
         m5 = re.search(r"VF-WATCHDOG (\w+)", text)
         kind = "watchdog_" + (m5.group(1) if m5 else "x")
+    mv = re.search(r"==\d+== ((?:Conditional jump|Use of uninitialised|Invalid (?:read|write|free)|Mismatched free|Syscall param|Source and destination overlap|Argument)[^\n]{0,50})", text)
+    if mv and kind.startswith("signal_"):
+        kind = "valgrind_" + re.sub(r"[^a-z]+", "_", mv.group(1).lower()).strip("_")[:40]
     frame = "noframe"
-    for m in re.finditer(r"#\d+ 0x[0-9a-f]+ in ([^\n]+)", text):
+    for m in re.finditer(r"==\d+==\s+(?:at|by) 0x[0-9A-Fa-f]+: ([^\n]+)", text):
         fm = re.match(r"(?:[\w:<>,*& ]+ )?Clipper2Lib::([\w:~]+)", m.group(1))
         if fm and not m.group(1).startswith("std::"):
             frame = fm.group(1)
+            break
+    for m in re.finditer(r"#\d+ 0x[0-9a-f]+ in ([^\n]+)", text):
+        fm = re.match(r"(?:[\w:<>,*& ]+ )?Clipper2Lib::([\w:~]+)", m.group(1))
+        if fm and not m.group(1).startswith("std::"):
+            if frame == "noframe":
+                frame = fm.group(1)
             break
     return [kind, "frame_" + frame, kind + "@" + frame]
 
@@ -351,11 +386,8 @@ def run_property(prop, tier, seed, replay=None):
         tmo = pdef.get("timeout", {}).get(tier, 1500 if tier == "quick" else 7200)
 
         def go(w):
-            w.run(w.job.get("timeout", {}).get(tier, tmo) if isinstance(w.job.get("timeout"), dict) else tmo)
-            if w.timed_out:
-                notes.append("worker %s timed out after %.0fs; re-running once" % (w.tag, w.wall))
-                w.run(tmo)
-            return w
+            t = w.job.get("timeout", {}).get(tier, tmo) if isinstance(w.job.get("timeout"), dict) else tmo
+            return w.run_all(t)
         with ThreadPoolExecutor(NCPU) as ex:
             list(ex.map(go, workers))
 
@@ -366,7 +398,7 @@ def run_property(prop, tier, seed, replay=None):
         samples = []
         per_job = {}
         for w in workers:
-            recs = w.records()
+            recs = w.all_records
             stats = [r for r in recs if r.get("t") == "stats"]
             for r in recs:
                 if r.get("t") == "violation":
@@ -379,14 +411,12 @@ def run_property(prop, tier, seed, replay=None):
                 inconclusive.append("worker %s (%s/%s) exceeded the %ds watchdog twice at case %s" %
                                     (w.tag, w.job["mon"], w.job["cfg"], tmo, w.progress()))
                 continue
-            if w.rc != 0 or not stats:
-                # crashed: find the case, reproduce it alone with a witness dump
-                idx = w.progress()
-                txt = w.stderr_text()
-                tags = classify_crash(txt, w.rc)
+            for ci, (idx, rc, txt) in enumerate(w.crashes):
+                # crashed: reproduce the case alone with a witness dump
+                tags = classify_crash(txt, rc)
                 witness = ""
                 if idx is not None and idx >= 0:
-                    w2 = Worker(w.job, w.exe, 0, 1, w.cases, w.seed, tier, tmp, w.tag + "_only")
+                    w2 = Worker(w.job, w.exe, 0, 1, w.cases, w.seed, tier, tmp, "%s_only%d" % (w.tag, ci))
                     w2.run(tmo, ["--only", str(idx), "--dump"])
                     for r in w2.records():
                         if r.get("t") == "dump":
@@ -401,17 +431,20 @@ def run_property(prop, tier, seed, replay=None):
                         txt = w2.stderr_text() or txt
                 if witness:
                     tags += witness_tags(witness)
-                keep = os.path.join(REPLAY, "%s_%s_crash_s%d_%s.stderr.txt" % (prop, w.job["mon"], seed, w.tag))
+                keep = os.path.join(REPLAY, "%s_%s_crash_s%d_%s_%d.stderr.txt" % (prop, w.job["mon"], seed, w.tag, ci))
                 with open(keep, "w") as f:
                     f.write(txt)
+                counters["worker_crashes"] = counters.get("worker_crashes", 0) + 1
                 if "not_reproduced_alone" in tags and any(t.startswith("watchdog_") for t in tags):
                     # a watchdog that fires only inside the loaded batch is a load artefact, not a verdict
                     notes.append("watchdog fired in worker %s at case %s but the case completes alone (%s)" % (w.tag, idx, keep))
                 elif pdef.get("crash_is_violation", True):
-                    report(prop + ".crash", tags, witness or keep, "worker %s died rc=%s at case %s; stderr kept in %s" % (w.tag, w.rc, idx, keep))
+                    report(prop + ".crash", tags, witness or keep, "worker %s died rc=%s at case %s; stderr kept in %s" % (w.tag, rc, idx, keep))
                 else:
-                    inconclusive.append("worker %s died rc=%s at case %s (%s)" % (w.tag, w.rc, idx, keep))
-                # stats of a crashed worker are lost; continue
+                    inconclusive.append("worker %s died rc=%s at case %s (%s)" % (w.tag, rc, idx, keep))
+            if w.gave_up and not any(r.get("t") == "stats" for r in recs):
+                notes.append("worker %s gave up after %d crashes; the rest of its shard was not explored" % (w.tag, len(w.crashes)))
+            if not stats:
                 continue
             st = stats[-1]
             evaluations += st.get("evaluations", 0)
